@@ -324,6 +324,35 @@ def St.setValue (env : Env) (s : St) (n : Node) (v : Val) : St × Option EditErr
     let s3 := s2.addNode (.elem n)
     ({ s3 with inputs := if s3.inputs.contains n then s3.inputs else s3.inputs ++ [n] }, none)
 
+/-! ### administrative calls
+
+`mx.start_stacktrace` / `stop_stacktrace` (the call stack object is replaced by one of the other
+class **with the same `maxdepth`**), `get_stacktrace`, `clear_stacktrace`, `trace_stack`,
+`get_recursion`, `get_error`, `get_traceback`, and `set_recursion` to the value the limit already
+has: none of them touches the execution state, the cache, the graphs or the recursion limit.
+(`set_recursion(k)` proper changes `Env.maxdepth` and nothing else - in particular it clears
+nothing.) -/
+
+inductive Admin
+  | startTrace | stopTrace | getTrace | clearTrace | traceStack
+  | getRecursion | getError | getTraceback | setRecursionSame
+deriving DecidableEq, Repr
+
+def St.admin (s : St) (_ : Admin) : St := s
+
+/-- the only state of the stack-trace facility that is visible through results: whether a trace
+session is active (`get_stacktrace` / `clear_stacktrace` raise `RuntimeError` when it is not) -/
+def Admin.tracing (active : Bool) : Admin → Bool
+  | .startTrace => true
+  | .stopTrace => false
+  | .traceStack => false
+  | _ => active
+
+def Admin.refused (active : Bool) : Admin → Bool
+  | .getTrace => !active
+  | .clearTrace => !active
+  | _ => false
+
 /-- leaves of the descendants of `n` (`TraceGraph.get_startnodes_from`) -/
 def St.startNodesFrom (s : St) (n : Node) : List Node :=
   if s.gn.contains (.elem n) then
